@@ -563,11 +563,19 @@ def cascade(seed):
     # in two histories out of five, everything that can run DURING a component removal only observes, so that the
     # cascade oracle (vt/judge.py) can predict the deliveries exactly
     observers = r.random() < 0.4
-    CASC = ("RemC", "Despawn", "RemH", "RemT")
+    # ... and in half of those the announcement's receivers may still act (strip the component, add it, despawn):
+    # the announcement phase is deterministic, so the outcome stays order-independent (judge.rmc_projection)
+    acting_announcement = observers and r.random() < 0.5
+    CASC = ("Despawn", "RemH", "RemT") if acting_announcement else ("RemC", "Despawn", "RemH", "RemT")
     for i in range(r.randint(2, 7)):
         recv = r.choice(USER_G + ["T0", "Despawn", "Despawn", "RemC", "RemH", "RemT", "AddC", "AddH", "InsK0", "RemK1", "Spawn"])
         if observers and r.random() < 0.5:
             recv = r.choice(["Despawn", "Despawn", "RemC", "RemH"])
+        if acting_announcement and recv == "RemC":
+            ks = r.sample(list(comps), 2)
+            ops.append(rand_handler(ctx, recv=recv, allow_panic=0, take_p=0, nfetch=0, body_len=(2, 4),
+                                    sends=[f"RemK{ks[0]}", f"InsK{ks[1]}"] + (["Despawn"] if r.random() < 0.3 else [])))
+            continue
         ops.append(rand_handler(ctx, recv=recv, allow_panic=0, take_p=0.3 if recv == "Despawn" else 0.1,
                                 tid=(r.randrange(3) if r.random() < 0.25 else None),
                                 observer=observers and recv in CASC))
